@@ -403,7 +403,12 @@ func TestVF_C01(t *testing.T) {
 				} else {
 					k.SetInt64(dk + 1)
 				}
-				if k.Sign() <= 0 {
+				if base == "low" && dk == -1 {
+					// shift below zero: equation-valid, response negative (only presentable
+					// in memory; the text encodings cannot carry it) - must be rejected
+					k.Div(cur, ord).Add(k, bi(1)).Neg(k)
+				}
+				if k.Sign() == 0 || (k.Sign() < 0 && !(base == "low" && dk == -1)) {
 					continue
 				}
 				b, err := newAdvBuilder(c.kp, c.cred, c.hiddenOf(c.D), discMap(ms, c.D))
@@ -417,16 +422,19 @@ func TestVF_C01(t *testing.T) {
 					b.shiftA[hidden[target]] = sh
 				}
 				p, err := c.advProof(b)
-				if err != nil || b.negative {
+				if err != nil || (b.negative && k.Sign() > 0) {
 					continue
 				}
 				// expectation from the actual response values of this proof
 				inRange := p.EResponse.Cmp(new(big.Int).Sub(pow2(pk.Params.LeCommit+1), bi(1))) <= 0
 				maxA := new(big.Int).Sub(pow2(pk.Params.LmCommit+1), bi(1))
 				for _, r := range p.AResponses {
-					if r.Cmp(maxA) > 0 {
+					if r.Cmp(maxA) > 0 || r.Sign() < 0 {
 						inRange = false
 					}
+				}
+				if p.EResponse.Sign() < 0 {
+					inRange = false
 				}
 				exp, cls := "reject", "outside"
 				if inRange {
